@@ -98,6 +98,15 @@ let canon_doc (d : document) : string =
 (* the canonical form of a request WITH the schema it is sent to: per object type the selection set can be evaluated on, the
    fields it collects there (inline fragments resolved as CollectFields does, fields of one response key merged), as a set.
    Two requests with the same canonical form ask every object the subgraph can return for the same fields. *)
+(* the planner's placeholder  __internal_...: __typename  is asked of the subgraph and never read: no part of the canonical form *)
+let rec canon_strip (l : selection list) : selection list =
+  List.filter_map (fun s -> match s with
+      | SField (Some x, _, _, _, _) when String.length (sb x) >= 10 && String.sub (sb x) 0 10 = "__internal" -> None
+      | SField (a, n, args, dirs, ss) -> Some (SField (a, n, args, dirs, canon_strip ss))
+      | SInline (c, dirs, ss) -> Some (SInline (c, dirs, canon_strip ss))
+      | SSpread _ -> Some s) l
+let canon_strip_doc (d : document) : document =
+  List.map (function DOp o -> DOp { o with op_sels = canon_strip o.op_sels } | x -> x) d
 let canon_gen (sc : schema) : (bytes -> selection list -> string) * (document -> string) =
   let find_td n = List.find_opt (fun td -> td.td_name = n) sc.s_types in
   let rec named = function TNamed t -> t | TList t | TNonNull t -> named t in
@@ -108,6 +117,7 @@ let canon_gen (sc : schema) : (bytes -> selection list -> string) * (document ->
   let applies (c : bytes) (cond : bytes) = is_entity_ty cond || type_applies sc c cond in
   let rec collect (c : bytes) (l : selection list) : selection list =
     List.concat_map (fun s -> match s with
+        | SField (Some x, _, _, _, _) when String.length (sb x) >= 10 && String.sub (sb x) 0 10 = "__internal" -> []   (* the planner's placeholder, never read *)
         | SField _ -> [s]
         | SInline (None, _, ss) -> collect c ss
         | SInline (Some cond, _, ss) -> if applies c cond then collect c ss else []
@@ -151,8 +161,8 @@ let canon_gen (sc : schema) : (bytes -> selection list -> string) * (document ->
         (match o.op_kind with OpQuery -> "query" | OpMutation -> "mutation" | OpSubscription -> "subscription") ^
         "(" ^ String.concat "," vds ^ ")" ^ show_dirs o.op_dirs ^ sels root o.op_sels
       | DFrag f -> "fragment " ^ sb f.fr_name ^ " on " ^ sb f.fr_type ^ sels f.fr_type f.fr_sels) d))
-let canon_doc_t (sc : schema) (d : document) : string = snd (canon_gen sc) d
-let canon_sels_t (sc : schema) (ty : bytes) (l : selection list) : string = fst (canon_gen sc) ty l
+let canon_doc_t (sc : schema) (d : document) : string = snd (canon_gen sc) (canon_strip_doc d)
+let canon_sels_t (sc : schema) (ty : bytes) (l : selection list) : string = fst (canon_gen sc) ty (canon_strip l)
 
 (* unordered JSON equality (object member order is not part of a JSON value) *)
 let rec json_ueq (a : json) (c : json) : bool =
@@ -251,6 +261,31 @@ let repr_fields (f : rfetch) (t : string) : string list =
                | NLeaf _ -> raise (Outside "representation_path")
                | NObj _ -> raise (Outside "nested_key")
                | _ -> raise (Outside "representation_shape"))) flds |> List.filter_map (fun x -> x)
+        | _ -> raise (Outside "representation_shape"))
+     | _ -> raise (Outside "representation_shape"))
+  | [] -> raise (Outside "representation_shape")
+  | _ -> raise (Outside "several_representation_templates")
+
+(* the representation fields with one level of nesting: (name, inner leaf names); inner = [] for a leaf *)
+let repr_fields_n (f : rfetch) (t : string) : (string * string list) list =
+  match f.f_reprs with
+  | [L (A "tmpl" :: _ :: segs)] ->
+    (match List.filter (function L [A "resolve"; _] -> true | _ -> false) segs with
+     | [L [A "resolve"; nd]] ->
+       (match node_of nd with
+        | NObj (_, _, _, flds) ->
+          List.filter_map (fun (n, on, v) ->
+              if (match on with Some ts -> not (List.mem t ts) | None -> false) then None else
+              Some (match v with
+               | NLeaf (_, [p], _) when p = n -> (n, [])
+               | NLeaf _ -> raise (Outside "representation_path")
+               | NObj ([p], _, _, inner) when p = n ->
+                 (n, List.map (fun (i, _, w) -> match w with
+                      | NLeaf (_, [q], _) when q = i -> i
+                      | NObj _ -> raise (Outside "nested_key_depth")
+                      | _ -> raise (Outside "representation_shape")) inner)
+               | NObj _ -> raise (Outside "representation_path")
+               | _ -> raise (Outside "representation_shape"))) flds
         | _ -> raise (Outside "representation_shape"))
      | _ -> raise (Outside "representation_shape"))
   | [] -> raise (Outside "representation_shape")
@@ -390,14 +425,22 @@ let rec is_prefix a b = match a, b with [], _ -> true | x :: a', y :: b' -> x = 
 
 let sel_key_s (s : selection) = match s with SField (a, n, _, _, _) -> response_key a n | _ -> ""
 
+(* the planner's placeholder  __internal_...: __typename  (put where @skip / @include leave a selection set empty) is asked of the
+   subgraph and never rendered: it is no part of the client's operation *)
+let is_internal_alias (a : bytes option) = (match a with Some x -> String.length (sb x) >= 10 && String.sub (sb x) 0 10 = "__internal" | None -> false)
+let rec strip_internal (l : selection list) : selection list =
+  List.filter_map (fun s -> match s with
+      | SField (a, _, _, _, _) when is_internal_alias a -> None
+      | SField (a, n, args, dirs, ss) -> Some (SField (a, n, args, dirs, strip_internal ss))
+      | SInline (c, dirs, ss) -> Some (SInline (c, dirs, strip_internal ss))
+      | SSpread _ -> Some s) l
+let strip_internal_doc (d : document) : document =
+  List.map (function DOp o -> DOp { o with op_sels = strip_internal o.op_sels } | x -> x) d
+
 let translate3 (super : schema) (subs : (string * schema) list) (op : document) (vars : json) (fetches : rfetch list) : translated3 =
   let o = match op with [DOp o] -> o | _ -> raise (Outside "op_shape") in
   if o.op_kind <> OpQuery then raise (Outside "op_kind");
-  let rec internal (s : selection) = match s with
-    | SField (Some a, _, _, _, ss) -> (String.length (sb a) >= 10 && String.sub (sb a) 0 10 = "__internal") || List.exists internal ss
-    | SField (None, _, _, _, ss) | SInline (_, _, ss) -> List.exists internal ss
-    | SSpread _ -> false in
-  if List.exists internal o.op_sels then raise (Outside "internal_typename_placeholder");
+  let o = { o with op_sels = strip_internal o.op_sels } in
   if o.op_dirs <> [] then raise (Outside "op_directive");
   let is_abstract tn = (match find_type_s super tn with Some { td_kind = (KInterface | KUnion); _ } -> true | _ -> false) in
   let rec named0 = function TNamed n -> sb n | TList t | TNonNull t -> named0 t in
@@ -422,7 +465,7 @@ let translate3 (super : schema) (subs : (string * schema) list) (op : document) 
   let roots = List.filter (fun f -> f.f_kind = "single" && f.f_deps = [] && f.f_path = "") fetches in
   let others = List.filter (fun f -> not (List.memq f roots)) fetches in
   List.iter (fun f -> if f.f_kind = "single" then feat "dependent_single_fetch") others;
-  if roots = [] then feat "no_root_fetch";
+  if roots = [] && o.op_sels <> [] then feat "no_root_fetch";
   List.iter (fun f -> if f.f_deps = [] then feat "entity_fetch_without_dependency") others;
   (let rs = List.map (fun f -> f.f_sub) roots in
    if List.length (List.sort_uniq compare rs) <> List.length rs then feat "two_root_fetches_on_one_subgraph");
@@ -482,7 +525,8 @@ let translate3 (super : schema) (subs : (string * schema) list) (op : document) 
                let (t, sel) = (ty, List.assoc ty (ent_parts f)) in
                let selB = if tn then List.tl sel else sel in
                let si = match index_of_sub subs f.f_sub with Some i -> i | None -> raise (Translate "unknown_subgraph") in
-               let ks = (match repr_fields f t with "__typename" :: ks -> ks | _ -> raise (Translate "representation_without_typename")) in
+               let kfs = (match repr_fields_n f t with ("__typename", []) :: r -> r | _ -> raise (Translate "representation_without_typename")) in
+               let ks = List.map fst kfs in
                (* every representation field is read off the first source (among the dependencies) that was asked for it;
                   consecutive fields of one source are grouped *)
                let src_of k =
@@ -500,7 +544,8 @@ let translate3 (super : schema) (subs : (string * schema) list) (op : document) 
                    | [] -> (match dep_srcs with (i, _) :: _ -> [(i, [])] | [] -> [])
                    | g -> g) in
                sources := !sources @ [(f, selB)];
-               fentries := !fentries @ [((List.map (fun (i, l) -> (nat_of_int i, List.map bs l)) deps, nat_of_int si), List.map bs ks)]
+               let entry k = (bs k, List.map bs (List.assoc k kfs)) in
+               fentries := !fentries @ [((List.map (fun (i, l) -> (nat_of_int i, List.map entry l)) deps, nat_of_int si), List.map bs ks)]
              end)) others
     done;
     let items = List.map (fun s ->
@@ -516,6 +561,10 @@ let translate3 (super : schema) (subs : (string * schema) list) (op : document) 
           (nat_of_int tag, mk_item depth ty path tctx g x s)
         | SInline _ -> raise (Outside "inline_fragment_at_fetch_position")
         | SSpread _ -> raise (Outside "fragment_spread")) client in
+    (* a nested key field that the client selects itself at this position: the source's object under that name would carry
+       the client's and the key's inner fields merged *)
+    let nnames = List.concat_map (fun ((deps, _), _) -> List.concat_map (fun (_, l) -> List.filter_map (fun (k, inner) -> if inner <> [] then Some k else None) l) deps) !fentries in
+    if List.exists (fun (_, it) -> List.mem (item_key it) nnames) items then raise (Outside "nested_key_field_selected_by_client");
     PT (items, !fentries)
   (* the client's field [s] of an object of type [ty] at [path]; source [g] was asked [x] for it *)
   and mk_item (depth : int) (ty : string) (path : string list) (tctx : string list) (g : rfetch) (x : selection) (s : selection) : pitem =
@@ -603,12 +652,12 @@ let translate3 (super : schema) (subs : (string * schema) list) (op : document) 
     raise (Outside "abstract_selection")
 
 (* ---------------------------------------------------------------- why the tree validator said no *)
-let diagnose3 sc (subsl : schema list) vds sup kq decls rdecls (kd : nat) (ds : rfield3 list) : string =
+let diagnose3 sc (subsl : schema list) vds sup kq decls rdecls ndecls (kd : nat) (ds : rfield3 list) : string =
   let vars = pvars vds sup in
   let show l = String.concat " " (List.map (fun s -> match s with SField (a, n, _, _, _) -> response_key a n | SInline _ -> "..." | SSpread _ -> "...s") l) in
   let rec pred = function O -> O | S k -> k in
   let rec go_pt (k : nat) (path : string) (ty : bytes) (pt : ptree) : string option =
-    if pt_static_b sc subsl [] vds sup kq true decls rdecls k ty pt then None else
+    if pt_static_b sc subsl [] vds sup kq true decls rdecls ndecls k ty pt then None else
       let PT (items, fetches) = pt in
       let k' = pred k in
       (match List.find_map (fun (_, it) -> go_item k' path ty it) items with
@@ -616,10 +665,21 @@ let diagnose3 sc (subsl : schema list) vds sup kq decls rdecls (kd : nat) (ds : 
        | None ->
          if not (names_distinct (List.map (fun (_, it) -> item_key it) items)) then Some (path ^ ": response keys not distinct")
          else if not (List.for_all (fun (_, it) -> item_unaliased (fetch_keys fetches) it) items) then Some (path ^ ": a client field aliased to a key name")
-         else if not (fetches_static_b sc subsl [] vds sup kq decls rdecls ty items fetches (S O) fetches) then Some (path ^ ": fetches_static_b")
+         else if not (fetches_static_b sc subsl [] vds sup kq decls rdecls ndecls ty items fetches (S O) fetches) then
+           Some (path ^ ": fetches_static_b" ^
+                 (match List.find_opt (fun ((deps, _), ks) -> not (key_static_b decls ndecls ty (fetch_kl deps ks) (fetch_kn deps))) fetches with
+                  | Some ((deps, _), ks) -> " (key_static_b: the representation fields [" ^ String.concat " " (List.map sb ks) ^ "] of " ^ sb ty ^ " contain no declared key; nested " ^
+                                            String.concat " " (List.map (fun (k, i) -> sb k ^ "{" ^ String.concat " " (List.map sb i) ^ "}") (fetch_kn deps)) ^ ")"
+                  | None -> ""))
+         else if List.exists (fun k0 -> List.mem k0 (List.map (fun (_, it) -> item_key it) items)) (fetch_nnames fetches) then
+           Some (path ^ ": a nested key field is selected by the client at this position")
+         else if List.exists (fun k0 -> List.mem k0 (fetch_keys fetches)) (fetch_nnames fetches) then
+           Some (path ^ ": a nested key field is also a leaf representation field")
+         else if not (declared_obj sc ty) then Some (path ^ ": " ^ sb ty ^ " is no object type of the supergraph")
+         else if not (List.for_all (fun (tg, _) -> int_of_nat tg <= List.length fetches) items) then Some (path ^ ": item tag beyond the fetches")
          else Some (path ^ ": position of type " ^ sb ty))
   and go_item (k : nat) (path : string) (ty : bytes) (it : pitem) : string option =
-    if item_static_b sc subsl [] vds sup kq true decls rdecls k ty it then None else
+    if item_static_b sc subsl [] vds sup kq true decls rdecls ndecls k ty it then None else
       (match it with
        | PKeep s -> Some (path ^ "." ^ show [s] ^ ": kept field not plain")
        | PDown (a, n, _, _, t', sub) -> (match go_pt (pred k) (path ^ "." ^ response_key a n) t' sub with Some w -> Some w | None -> Some (path ^ "." ^ response_key a n ^ ": field type / shape"))
@@ -701,6 +761,12 @@ let handle (x : sexp) : (string * string) list =
     let subs = match cfind "subs" with L (_ :: l) -> List.map (function L [S n; s] -> (n, schema_of s) | _ -> raise (Sexp_error "sub")) l | _ -> [] in
     let subsl = List.map snd subs in
     let decls = match cfind "keys" with L (_ :: l) -> List.map (function L [S t; ks] -> (bs t, List.map bs (strs ks)) | _ -> raise (Sexp_error "key")) l | _ -> [] in
+    (* keys with one level of nesting: (type, (leaf part, nested part)) *)
+    let ndecls = (try (match cfind "nkeydecls" with
+        | L (_ :: l) -> List.map (function
+            | L [S t; lv; L ns] -> (bs t, (List.map bs (strs lv), List.map (function L [S k; inner] -> (bs k, List.map bs (strs inner)) | _ -> raise (Sexp_error "nkey")) ns))
+            | _ -> raise (Sexp_error "nkeydecl")) l
+        | _ -> []) with _ -> []) in
     let rdecls = match cfind "requires" with
       | L (_ :: l) -> List.map (function L [S t; S f; rs] -> ((bs t, bs f), List.map bs (strs rs)) | _ -> raise (Sexp_error "requires")) l | _ -> [] in
     let plan = match find "plan" with Some (L (_ :: p)) -> p | _ -> raise (Sexp_error "plan") in
@@ -737,7 +803,7 @@ let handle (x : sexp) : (string * string) list =
         let sub_name i = match List.nth_opt subs (int_of_nat i) with Some (n, _) -> n | None -> "?" in
         (* the client operation, verbatim *)
         let cd = client_doc3 t.t3_vds [] t.t3_ds in
-        let op_anon = List.map (function DOp o -> DOp { o with op_name = None } | d -> d) op in
+        let op_anon = List.map (function DOp o -> DOp { o with op_name = None } | d -> d) (strip_internal_doc op) in
         if cd <> op_anon then add "mismatch" ("corr:C01p/client_doc (pair " ^ ids ^ ") the translated plan tree does not reproduce the planner's operation");
         (* the model's requests are the real plan's fetches *)
         let mreqs = model_requests3s (nat_of_int (List.length subsl)) t.t3_vds [] t.t3_tn t.t3_ds in
@@ -768,7 +834,7 @@ let handle (x : sexp) : (string * string) list =
                                    (String.concat " | " (List.map (fun f -> f.f_sub ^ ":" ^ real_doc f) (List.filter (fun f -> path_of f = p) t.t3_others))))
                | f :: _ ->
                  (* the representation template names the model's representation fields *)
-                 let tfields = (try repr_fields f (fst (List.hd (entity_doc_parts_all doc))) with _ -> []) in
+                 let tfields = (try List.map fst (repr_fields_n f (fst (List.hd (entity_doc_parts_all doc)))) with _ -> []) in
                  if List.sort compare tfields <> List.sort compare (List.map sb rf) then
                    add "mismatch" (Printf.sprintf "corr:C01p/plan_form (pair %s) representation fields at %s: model [%s] real [%s]" ids
                                      (String.concat "." p) (String.concat " " (List.map sb rf)) (String.concat " " tfields)))) mreqs;
@@ -795,11 +861,17 @@ let handle (x : sexp) : (string * string) list =
         let rec pt_abs (PT (items, _)) = List.exists (fun (_, it) -> item_abs it) items
         and item_abs = function PKeep _ -> false | PDown (_, _, _, _, _, sub) -> pt_abs sub | PAbs _ -> true in
         let has_abs = List.exists (fun d -> item_abs d.r3_item) t.t3_ds in
-        let static_b = if has_abs then tv4_static_b else tv3_static_b in
-        let contract_b = if has_abs then univ4_contract_b else univ3_contract_b in
-        let theorem = if has_abs then "tv4_sound" else "tv3_sound" in
+        (* a fetch whose representation has a nested key field *)
+        let rec pt_nk (PT (items, fetches)) =
+          List.exists (fun ((deps, _), _) -> List.exists (fun (_, l) -> List.exists (fun (_, inner) -> inner <> []) l) deps) fetches ||
+          List.exists (fun (_, it) -> item_nk it) items
+        and item_nk = function PKeep _ -> false | PDown (_, _, _, _, _, sub) -> pt_nk sub | PAbs (_, _, _, _, _, _, _, alts) -> List.exists (fun (_, pt) -> pt_nk pt) alts in
+        let has_nk = List.exists (fun d -> item_nk d.r3_item) t.t3_ds in
+        let static_b = if has_nk then (fun a b c d e f g h i j -> tv5_static_b a b c d e f g h ndecls i j) else if has_abs then tv4_static_b else tv3_static_b in
+        let contract_b = if has_nk then (fun a b c d u -> univ5_contract_b a b c d ndecls u) else if has_abs then univ4_contract_b else univ3_contract_b in
+        let theorem = if has_nk then "tv5_sound" else if has_abs then "tv4_sound" else "tv3_sound" in
         let accepted = static_b super subsl [] t.t3_vds t.t3_sup kq decls rdecls kdepth t.t3_ds in
-        if not accepted then (v3_diag := diagnose3 super subsl t.t3_vds t.t3_sup kq decls rdecls kdepth t.t3_ds; raise Exit);
+        if not accepted then (v3_diag := diagnose3 super subsl t.t3_vds t.t3_sup kq decls rdecls ndecls kdepth t.t3_ds; raise Exit);
         let in_contract = ref 0 in
         let order_diffs = ref 0 in
         let gw_differs = ref 0 in
